@@ -20,6 +20,15 @@ def justifiedBy (cs : List Contract) (c : Contract) : Bool :=
     | some e => (e.σ0.take c.pre.length == c.σ0) && e.post cs c.post
     | none => false
 
+/-- the sliced program of one function passes the abstract interpreter (used by the property files of the
+    functions' own properties: C01 sign, C02 Verify, C07 RecoverPublicKey, C08 ParsePubKey, …) -/
+def entryOK (n : String) : Bool :=
+  match Secp.Gen.Slices.allSlices.find? (fun e => e.name == n) with
+  | some e => e.ok Secp.Gen.Slices.contracts
+  | none => false
+
+def entriesOK (ns : List String) : Bool := ns.all entryOK
+
 /-- diagnostics: every failing (entry, path, item) of the sliced programs -/
 def allFailures : List (String × Nat × Nat) :=
   Secp.Gen.Slices.allSlices.flatMap (SEntry.failures Secp.Gen.Slices.contracts)
